@@ -51,7 +51,10 @@ def align_n(ctx, specs, join='outer', sort=False, axis=None, lk=None, dataset_at
         kw['sort'] = True
     if axis is not None:
         kw['axis'] = axis
+    given = list(inputs)
     r = ctx.call(lambda: ctx.da.align(inputs, **kw))
+    # the caller's list is an input too: same objects, same order
+    list_ok = len(inputs) == len(given) and all(x is y for x, y in zip(inputs, given))
     if any(0 in ref.shape for ref in refs):
         ctx.region('C06.empty-axis', True)
     if r[0] != 'ok':
@@ -67,7 +70,7 @@ def align_n(ctx, specs, join='outer', sort=False, axis=None, lk=None, dataset_at
             dso = outs[dataset_at]
             extra_ok = list(dso.keys()) == ['a0', 'v', 'z9'] and ctx.AND(same(ctx, dso['a0'], Ref(['k'], [ek], ec)), same(ctx, dso['z9'], Ref(['k'], [ek], ec)))
         outs[dataset_at] = outs[dataset_at]['v']
-    oks = []
+    oks = [list_ok]
     if dataset_at is not None:
         oks.append(extra_ok)
     alldims = []
